@@ -23,47 +23,78 @@ theorem C17_apply_row_perm (v : VW) (buf : List α) (h : v.Inv buf.length)
     applyRowPerm swapRows buf p = .ok (gather buf (v.mapCells (sortRowsG p))) := by
   exact applyRowPerm_spec v buf h swapRows hsw p hp
 
-/-- `sort_by_col` (and `sort_by_col_key`, `sort_col_ord`).  `col` is the implementor's `col()` (C09). -/
+/-- the keys of column `c`, top to bottom -/
+def VW.colKeys (v : VW) (buf : List α) (c : Nat) : List α := (List.range v.numRows).filterMap fun r => buf[v.pos c r]?
+
+/-- **Every `sort_*_col*` method** (`Acc.sortColWith`: the one body all five share; `col` = the implementor's `col()` (C09),
+    `swapRows` = the implementor's `swap_rows` (C13)): out-of-range column panics; a column too long for the side table panics;
+    a panic of caller code inside the side sort is the outcome (nothing written before); otherwise whole rows are permuted by the
+    permutation `p` the side sort returned: new row `j` is old row `p[j]`. -/
+theorem C17_sort_col_with (v : VW) (buf : List α) (h : v.Inv buf.length) (a : Acc) (ha : a.Of v buf.length)
+    (col : Nat → Res Col)
+    (hcol : ∀ c, c < v.numCols → ∃ it, col c = .ok it ∧ it.WF v.numRows buf.length ∧
+      it.abs v.numRows = (List.range v.numRows).map fun r => v.pos c r)
+    (swapRows : List α → Nat → Nat → Res (List α)) (hsw : SwapRowsSpec v buf.length swapRows)
+    (lim : Nat) (side : SideSort α) (c : Nat) :
+    (¬ c < v.numCols → a.sortColWith col swapRows buf lim side c = .error .panic) ∧
+    (c < v.numCols → ¬ v.numRows ≤ lim → a.sortColWith col swapRows buf lim side c = .error .panic) ∧
+    (c < v.numCols → v.numRows ≤ lim → ∀ e, side (v.colKeys buf c) = .error e →
+      a.sortColWith col swapRows buf lim side c = .error e) ∧
+    (c < v.numCols → v.numRows ≤ lim → ∀ p, side (v.colKeys buf c) = .ok p → p.Perm (List.range v.numRows) →
+      a.sortColWith col swapRows buf lim side c = .ok (gather buf (v.mapCells (sortRowsG p)))) := by
+  sorry
+
+/-- the key column of a view has `num_rows` cells -/
+theorem C17_key_col_length (v : VW) (buf : List α) (h : v.Inv buf.length) (c : Nat) (hc : c < v.numCols) :
+    (v.colKeys buf c).length = v.numRows := by
+  sorry
+
+/-- `sort_by_col(col, compare)` -/
 theorem C17_sort_by_col (v : VW) (buf : List α) (h : v.Inv buf.length) (a : Acc) (ha : a.Of v buf.length)
     (col : Nat → Res Col)
     (hcol : ∀ c, c < v.numCols → ∃ it, col c = .ok it ∧ it.WF v.numRows buf.length ∧
       it.abs v.numRows = (List.range v.numRows).map fun r => v.pos c r)
     (swapRows : List α → Nat → Nat → Res (List α)) (hsw : SwapRowsSpec v buf.length swapRows)
-    (le : α → α → Bool) (c : Nat) :
+    (lim : Nat) (hlim : v.numRows ≤ lim) (le : α → α → Bool) (c : Nat) :
     (c < v.numCols →
-      a.sortByCol col swapRows buf le c =
+      a.sortByCol col swapRows buf lim le c =
         .ok (gather buf (v.mapCells (sortRowsG (stablePerm le
           ((List.range v.numRows).filterMap fun r => buf[v.pos c r]?)))))) ∧
-    (¬ c < v.numCols → a.sortByCol col swapRows buf le c = .error .panic) := by
-  constructor
-  · intro hc
-    obtain ⟨it, e, hwf, habs⟩ := hcol c hc
-    have hk : (it.abs v.numRows).filterMap (fun p => buf[p]?)
-        = (List.range v.numRows).filterMap fun r => buf[v.pos c r]? := by
-      rw [habs, List.filterMap_map]; rfl
-    have hp := stablePerm_perm le ((List.range v.numRows).filterMap fun r => buf[v.pos c r]?)
-    rw [col_keys_length v buf h hc] at hp
-    simp only [Acc.sortByCol, ha.cols, hc, not_true_eq_false, if_false, ok_bind, e, sort_collect_col hwf, hk]
-    exact C17_apply_row_perm v buf h swapRows hsw _ hp
-  · intro hc
-    simp only [Acc.sortByCol, ha.cols, hc, not_false_eq_true, if_true, throw_eq, err_bind]
+    (¬ c < v.numCols → a.sortByCol col swapRows buf lim le c = .error .panic) := by
+  sorry
 
-/-- `sort_unstable_by_col` (and its key variant): for every permutation the side sort may return -/
+/-- `sort_unstable_by_col(col, compare)`: for every permutation the side sort may return -/
 theorem C17_sort_unstable_by_col (v : VW) (buf : List α) (h : v.Inv buf.length) (a : Acc) (ha : a.Of v buf.length)
     (col : Nat → Res Col)
     (hcol : ∀ c, c < v.numCols → ∃ it, col c = .ok it ∧ it.WF v.numRows buf.length ∧
       it.abs v.numRows = (List.range v.numRows).map fun r => v.pos c r)
     (swapRows : List α → Nat → Nat → Res (List α)) (hsw : SwapRowsSpec v buf.length swapRows)
-    (p : List Nat) (hp : p.Perm (List.range v.numRows)) (c : Nat) :
-    (c < v.numCols → a.sortUnstableByCol col swapRows buf p c = .ok (gather buf (v.mapCells (sortRowsG p)))) ∧
-    (¬ c < v.numCols → a.sortUnstableByCol col swapRows buf p c = .error .panic) := by
-  constructor
-  · intro hc
-    obtain ⟨it, e, _, _⟩ := hcol c hc
-    simp only [Acc.sortUnstableByCol, ha.cols, hc, not_true_eq_false, if_false, ok_bind, e]
-    exact C17_apply_row_perm v buf h swapRows hsw p hp
-  · intro hc
-    simp only [Acc.sortUnstableByCol, ha.cols, hc, not_false_eq_true, if_true, throw_eq, err_bind]
+    (lim : Nat) (hlim : v.numRows ≤ lim) (p : List Nat) (hp : p.Perm (List.range v.numRows)) (c : Nat) :
+    (c < v.numCols → a.sortUnstableByCol col swapRows buf lim p c = .ok (gather buf (v.mapCells (sortRowsG p)))) ∧
+    (¬ c < v.numCols → a.sortUnstableByCol col swapRows buf lim p c = .error .panic) := by
+  sorry
+
+/-- the key and natural-order variants are the comparator variants with the derived comparator (src/sort.rs:168-170, 216-233) -/
+theorem C17_variants_delegate {κ : Type} (a : Acc) (col : Nat → Res Col) (swapRows : List α → Nat → Nat → Res (List α))
+    (buf : List α) (lim : Nat) (key : α → κ) (leK : κ → κ → Bool) (leOrd : α → α → Bool) (p : List Nat) (c : Nat) :
+    a.sortByColKey col swapRows buf lim key leK c = a.sortByCol col swapRows buf lim (fun x y => leK (key x) (key y)) c ∧
+    a.sortColOrd col swapRows buf lim leOrd c = a.sortByCol col swapRows buf lim leOrd c ∧
+    a.sortUnstableByColKey col swapRows buf lim p c = a.sortUnstableByCol col swapRows buf lim p c :=
+  ⟨rfl, rfl, rfl⟩
+
+/-- the three implementors' `swap_rows` meet `SwapRowsSpec`: the `TooDee` override, the `TooDeeViewMut` override, and the
+    trait default (what a third-party implementor gets) -/
+theorem C17_swap_rows_spec_owned (m : Mode) (t : TD α) (h : t.Inv) :
+    SwapRowsSpec t.asView t.data.length (fun b r1 r2 => ({ t with data := b } : TD α).swapRows m r1 r2) := by
+  sorry
+
+theorem C17_swap_rows_spec_view (m : Mode) (v : VW) (n : Nat) (h : v.Inv n) :
+    SwapRowsSpec (α := α) v n (fun b r1 r2 => v.swapRows m b r1 r2) := by
+  sorry
+
+theorem C17_swap_rows_spec_default (m : Mode) (v : VW) (n : Nat) (h : v.Inv n) (a : Acc) (ha : a.Of v n) :
+    SwapRowsSpec (α := α) v n (fun b r1 r2 => a.swapRows m b r1 r2) := by
+  sorry
 
 /-- a row permutation is a bijection of the cells: every row of the result is one original row, each once -/
 theorem C17_rows_bijective (C R : Nat) (p : List Nat) (hp : p.Perm (List.range R)) :
@@ -125,5 +156,37 @@ theorem C17_result_col_sorted (v : VW) (buf : List α) (h : v.Inv buf.length) (p
       rfl
     · rw [if_neg hk, List.getElem?_eq_none (by omega)]; rfl
   exact ⟨by rw [heq]; exact hsorted, heq⟩
+
+/-- **The property's first sentence for the stable comparator variant, in one statement**: for a total preorder `le` and a valid
+    column, `sort_by_col` succeeds; the result is the old array with whole rows permuted by a permutation `p` of the row indices;
+    the chosen column of the result is ordered by `le`; rows whose keys compare equal keep their original top-to-bottom order. -/
+theorem C17_sort_by_col_ordered (v : VW) (buf : List α) (h : v.Inv buf.length) (a : Acc) (ha : a.Of v buf.length)
+    (col : Nat → Res Col)
+    (hcol : ∀ c, c < v.numCols → ∃ it, col c = .ok it ∧ it.WF v.numRows buf.length ∧
+      it.abs v.numRows = (List.range v.numRows).map fun r => v.pos c r)
+    (swapRows : List α → Nat → Nat → Res (List α)) (hsw : SwapRowsSpec v buf.length swapRows)
+    (lim : Nat) (hlim : v.numRows ≤ lim) (le : α → α → Bool)
+    (htrans : ∀ a b c, le a b → le b c → le a c) (htotal : ∀ a b, le a b ∨ le b a)
+    (c : Nat) (hc : c < v.numCols) :
+    ∃ p buf', a.sortByCol col swapRows buf lim le c = .ok buf' ∧ p.Perm (List.range v.numRows) ∧
+      buf' = gather buf (v.mapCells (sortRowsG p)) ∧
+      (v.colKeys buf' c).Pairwise (fun x y => le x y = true) ∧
+      (∀ i j, i < j → j < v.numRows → ∀ x y, buf[v.pos c (p.getD i 0)]? = some x → buf[v.pos c (p.getD j 0)]? = some y →
+        le y x = true → p.getD i 0 < p.getD j 0) := by
+  sorry
+
+/-- the same for the key-function variant -/
+theorem C17_sort_by_col_key_ordered {κ : Type} (v : VW) (buf : List α) (h : v.Inv buf.length) (a : Acc) (ha : a.Of v buf.length)
+    (col : Nat → Res Col)
+    (hcol : ∀ c, c < v.numCols → ∃ it, col c = .ok it ∧ it.WF v.numRows buf.length ∧
+      it.abs v.numRows = (List.range v.numRows).map fun r => v.pos c r)
+    (swapRows : List α → Nat → Nat → Res (List α)) (hsw : SwapRowsSpec v buf.length swapRows)
+    (lim : Nat) (hlim : v.numRows ≤ lim) (key : α → κ) (leK : κ → κ → Bool)
+    (htrans : ∀ a b c, leK a b → leK b c → leK a c) (htotal : ∀ a b, leK a b ∨ leK b a)
+    (c : Nat) (hc : c < v.numCols) :
+    ∃ p buf', a.sortByColKey col swapRows buf lim key leK c = .ok buf' ∧ p.Perm (List.range v.numRows) ∧
+      buf' = gather buf (v.mapCells (sortRowsG p)) ∧
+      (v.colKeys buf' c).Pairwise (fun x y => leK (key x) (key y) = true) := by
+  sorry
 
 end Toodee
